@@ -86,6 +86,18 @@ type Check struct {
 	Stub        []string
 	FaultKinds  []string // fault kinds this check can inject (reported even when 0)
 	Post        func(ev map[string]interface{}) // optional: add check-specific coverage keys
+	// Prefix optionally fixes the first draws of run i (systematic sub-batches); nil = none.
+	Prefix func(tier string, i uint64) []uint64
+}
+
+func newRunTape(ch *Check, tier string, seed uint64, i uint64) *tape.Tape {
+	t := tape.NewSeeded(tape.Mix(seed, ch.ID, i))
+	if ch.Prefix != nil {
+		if p := ch.Prefix(tier, i); p != nil {
+			t.Preload(p)
+		}
+	}
+	return t
 }
 
 var Registry = map[string]*Check{}
@@ -457,7 +469,7 @@ func RunBatch(opt Options) int {
 					atomic.StoreInt32(&stop, 1)
 					return
 				}
-				t := tape.NewSeeded(tape.Mix(opt.Seed, ch.ID, i))
+				t := newRunTape(ch, opt.Tier, opt.Seed, i)
 				c := &Ctx{T: t, Tier: opt.Tier, RunIndex: i, Avoid: avoid, WantScenario: i < 3}
 				out, infra := runOnce(ch, c)
 				if infra != nil {
@@ -527,7 +539,7 @@ func RunBatch(opt Options) int {
 			idxs = idxs[:16]
 		}
 		for _, i := range idxs {
-			t := tape.NewSeeded(tape.Mix(opt.Seed, ch.ID, i))
+			t := newRunTape(ch, opt.Tier, opt.Seed, i)
 			out, infra := runOnce(ch, &Ctx{T: t, Tier: opt.Tier, RunIndex: i, Avoid: avoid})
 			if infra != nil {
 				fmt.Fprintf(os.Stderr, "INFRASTRUCTURE ERROR: %v\n", infra)
